@@ -6,6 +6,7 @@ usage: seedmeta.py <dir with seedcheck result JSON files named <id>.json / <id>.
 import glob
 import json
 import os
+import re
 import sys
 
 NEEDS = {
@@ -113,12 +114,30 @@ NEEDS = {
 }
 
 
+def needs_from_notes(path):
+    """round 3 onwards: title of the agent's notes + its 'What is needed ... to manifest' section"""
+    try:
+        txt = open(path).read()
+    except OSError:
+        return ''
+    title = txt.splitlines()[0].lstrip('# ').strip() if txt else ''
+    title = title.split(' — ', 1)[-1]
+    m = re.search(r'^##[^\n]*needed[^\n]*\n(.*?)(?=^## |\Z)', txt, re.M | re.S | re.I)
+    body = ' '.join(m.group(1).split()) if m else ''
+    if len(body) > 700:
+        body = body[:700].rsplit(' ', 1)[0] + ' ...'
+    return (title + ': ' + body).strip(': ')
+
+
 def main():
     resdir = sys.argv[1] if len(sys.argv) > 1 else '/tmp/seedres'
     here = os.path.dirname(os.path.dirname(os.path.abspath(__file__)))
     for d in sorted(glob.glob(os.path.join(here, 'seeded', 'C*-*'))):
         sid = os.path.basename(d)
-        prop, needs = NEEDS[sid]
+        if sid in NEEDS:
+            prop, needs = NEEDS[sid]
+        else:
+            prop, needs = sid[:3], needs_from_notes(os.path.join(d, 'notes.md'))
         meta_path = os.path.join(d, 'meta.json')
         meta = json.load(open(meta_path)) if os.path.exists(meta_path) else {}
         meta.update({'id': sid, 'breaks_property': prop, 'needs_to_manifest': needs,
